@@ -1,7 +1,7 @@
 (* Tools.v — model of the conversion / CSV tool functions of cardutil/cli (no proofs): compositions of the
    readers, writers and codecs.  csv parsing/printing itself is CPython's (oracle); the model works on rows. *)
 From Coq Require Import List NArith ZArith Bool Arith.
-From Coq Require Import Strings.Byte.
+From Coq Require Import Strings.Byte Strings.String.
 Require Import CU.model.Prim CU.model.Types CU.model.Unicode CU.model.Codec CU.model.Dates CU.model.Block CU.model.Vbs CU.model.Iso CU.model.Ipm.
 Import ListNotations.
 
@@ -60,5 +60,18 @@ Definition ipm_to_rows (cfg : cfgT) (cd : codec) (blocked : bool) (cols : list k
   match snd x with
   | End => Ok (map (fun d => map (fun k => match lookup d k with Some v => cell_of v | None => Some [] end) cols) (fst x))
   | ErrData _ _ => Raise EData
+  end.
+(* ---------- what the operator sees when a reading tool stops on a data error ---------- *)
+(* cli.print_exception_details(err): `if err.record_number: print(f'Error detected in record {err.record_number}')` *)
+Definition error_prefix : str := map (fun b => Byte.to_N b) (list_byte_of_string "Error detected in record ").
+Definition error_line (recno : nat) : option str :=
+  if Nat.eqb recno 0 then None else Some (error_prefix ++ str_of_N (N.of_nat recno)).
+(* mci_ipm_to_csv / mideu extract: `try: ... IpmReader ... except MciIpmDataError as err: print_exception_details(err); return -1`:
+   the records (then written as CSV), or the records read so far and the operator line *)
+Definition tool_read (cfg : cfgT) (cd : codec) (blocked : bool) (file : bytes) : result (list dict * option (option str)) :=
+  do x <- iread_all B maxlen cfg cd file blocked;
+  match snd x with
+  | End => Ok (fst x, None)
+  | ErrData n _ => Ok (fst x, Some (error_line n))
   end.
 End Tools.
